@@ -22,6 +22,21 @@ TECHNIQUE = "call-graph SCC + CFG dominance/typestate + symbolic loop normal for
 ENTRY = "reverse_dfs.py::reverse_dfs"
 
 
+def _plain_collection_local(f, name):
+    """A local that is only ever bound to a display / comprehension / set() / list() / dict(): a collection of its own."""
+    vals = []
+    for n in walk_no_nested_defs(f.node):
+        if isinstance(n, ast.Assign) and any(isinstance(t, ast.Name) and t.id == name for t in n.targets):
+            vals.append(n.value)
+        elif isinstance(n, ast.AnnAssign) and isinstance(n.target, ast.Name) and n.target.id == name and n.value is not None:
+            vals.append(n.value)
+        elif isinstance(n, (ast.For, ast.With, ast.AugAssign, ast.NamedExpr)) and any(isinstance(t, ast.Name) and t.id == name and isinstance(t.ctx, ast.Store) for t in ast.walk(n)
+                                                                                       if not isinstance(n, ast.For) or t in ast.walk(n.target)):
+            return False
+    return bool(vals) and all(isinstance(v, (ast.List, ast.Set, ast.Dict, ast.Tuple, ast.ListComp, ast.SetComp, ast.DictComp)) or (
+        isinstance(v, ast.Call) and call_name(v) in ("set", "list", "dict", "frozenset", "tuple", "range", "sorted")) for v in vals)
+
+
 def _entry(ctx):
     f = ctx.func(ENTRY)
     if len(f.params) < 2:
@@ -613,6 +628,10 @@ def r4_result(ctx, chk, rule="C07.4", order_matters=True):
         srcname = gen.iter.id if isinstance(gen.iter, ast.Name) else None
         if x is None or src(compr.elt) != x:
             chk.undecided(rule, f.where(compr), "result comprehension maps its elements: `%s`" % src(compr))
+            return
+        if srcname != s.visited_name and (s.visited_name is None or srcname is None or (srcname not in f.params and not _plain_collection_local(f, srcname))):
+            # the elements come from something that is not traced (a lazy stream of discoveries, a helper's result)
+            chk.undecided(rule, f.where(compr), "the result is drawn from `%s`; its relation to the visited collection `%s` is not resolved" % (src(gen.iter)[:60], s.visited_name))
             return
         if srcname != s.visited_name:
             chk.violation(rule, f.where(compr), "the result is built from `%s`, not from the visited collection `%s`" % (src(gen.iter), s.visited_name),
